@@ -6,7 +6,7 @@
    blob is a length prefix of the stated width followed by that many bytes.  Per trace segment there is one "tq" group,
    per FRI layer one "fl" group.
 
-   Mutations of a scalar: every boundary value of its width and its neighbours.  Mutations of a blob: shorten / lengthen
+   Mutations of a scalar: every boundary value of its width and its neighbours.  Mutations of a blob: shorten / lengthen / append a zero byte to
    the content consistently with the prefix, change the prefix alone (inconsistent with the rest), empty it, flip its
    first / last bit, replace its first element-sized chunk, swap its first two chunks, duplicate its last chunk.
    Content(p) is the decoded proof; the two exemptions of C03 are the FRI partition count (layout only) and alternative
@@ -42,7 +42,7 @@ MaxOf(w) == CASE w = 1 -> "ff" [] w = 2 -> "ffff" [] w = 4 -> "ffffffff" [] w = 
 ScalarMutations == {"zero", "one", "max", "max-1", "plus1", "minus1", "flip-high-bit"}
 \* the optional trailing component (GKR proof): absent -> present with a well-formed 3-byte body; present -> absent
 OptionMutations == {"set-some", "set-none"}
-BlobMutations   == {"shorten", "lengthen", "prefix+1", "prefix-1", "prefix-max", "empty", "flip-first-bit", "flip-last-bit",
+BlobMutations   == {"shorten", "lengthen", "append-zero", "prefix+1", "prefix-1", "prefix-max", "empty", "flip-first-bit", "flip-last-bit",
                     "zero-first-chunk", "swap-chunks", "dup-last-chunk", "drop-first-chunk"}
 
 \* a vint64 length prefix whose first byte is 0 announces an eight-byte length (the following bytes): a huge vector
